@@ -47,7 +47,7 @@ impl Mutex {
     }
 
     pub(crate) fn try_acquire_lock(&self, location: Location) -> bool {
-        self.state.branch_opaque(location);
+        self.state.branch_try(location);
         self.post_acquire()
     }
 
@@ -119,7 +119,10 @@ impl Mutex {
                 }
 
                 if let Some(operation) = thread.operation.as_ref() {
-                    if operation.object() == self.state.erase() {
+                    // A pending `try_lock` does not wait for the lock
+                    if operation.object() == self.state.erase()
+                        && operation.action() != object::Action::Try
+                    {
                         let location = operation.location();
                         trace!(state = ?self.state, thread = ?id,
                             "Mutex::post_acquire");
